@@ -208,6 +208,29 @@ pub fn sites(tier: Tier) -> Vec<Site> {
                 roundtrip(acc, i, &label, &format!("{}|{}", t.kind, t.field), &p, compressed, true, None, &replay);
             }));
     }
+    {
+        let cases = Arc::new(super::c02::list_order_cases());
+        let kinds = Arc::new(spec::load());
+        sites.push(Site::new("list-orders", cases.len() as u64 * 2,
+            "every counted list kind x n = 2, 3, 4 elements that differ in every field x every one of the n! orders x mode: encode, decode, encode",
+            move |i, acc| {
+                let (ki, vals, what) = &cases[(i / 2) as usize];
+                let compressed = i % 2 == 0;
+                let kind = &kinds[*ki];
+                let Some(frame) = spec::ref_encode(kind, vals, compressed) else { return };
+                let codec = Codec::new(mode_of(compressed));
+                let mut buf = BytesMut::from(&frame[..]);
+                let Ok(Ok(Some(p))) = guard(|| codec.decode(&mut buf)) else { acc.eval(); acc.class("spec-frame-not-decoded"); return };
+                let replay = json!({"site": "list-orders", "index": i, "case": what});
+                roundtrip(acc, i, what, &kind.name, &p, compressed, false, Some((kind, vals)), &replay);
+                // the decoder's typed list re-encoded must be the frame it came from (the writer is not asked to sort)
+                if let Ok(Ok(f1)) = guard(|| codec.encode(&p)) {
+                    if f1[..] != frame[..] && spec::ref_encode_opt(kind, vals, compressed, true).as_deref() != Some(&f1[..]) {
+                        acc.violate(i, format!("C01|{}|list-order|wire-typed-wire", kind.name), format!("{what}: frame {} decodes and re-encodes as {}", short(&frame), short(&f1)), replay);
+                    }
+                }
+            }));
+    }
     sites.push(packet_short_io_site("C01"));
     sites.push(mso_name_text_site("C01"));
     sites.push(container_ops_site("C01"));
@@ -232,19 +255,24 @@ pub fn packet_short_io_site(prop: &'static str) -> Site {
     }
     let bodies = Arc::new(bodies);
     const CHUNKS: [usize; 5] = [1, 2, 3, 5, 7];
-    let n = bodies.len() as u64 * CHUNKS.len() as u64 * 2;
+    let n = bodies.len() as u64 * CHUNKS.len() as u64 * 2 * 4;
     Site::new("packet-short-io", n,
-        "every kind's B0 and B1 packet body through Packet's public BinRead from a reader that returns at most {1, 2, 3, 5, 7} bytes per call x {never, every second call interrupted}: same packet as from a plain cursor; written through a writer that takes as few bytes per call: the same bytes",
+        "every kind's B0 and B1 packet body through Packet's public BinRead from a reader that returns at most {1, 2, 3, 5, 7} bytes per call x {never, every second call interrupted} x {no, the 2nd, the 2nd and 3rd, the 2nd..40th} call failing with Interrupted first: same packet as from a plain cursor; written through a writer that takes as few bytes per call: the same bytes",
         move |i, acc| {
             acc.eval();
+            // which read calls fail with Interrupted first: none / the 2nd / the 2nd and 3rd / every call from the 2nd to the 40th
+            let calls = [0u64, 0b10, 0b110, 0xff_ffff_fffe][(i % 4) as usize];
+            let i0 = i;
+            let i = i / 4;
             let interrupts = i % 2 == 1;
             let chunk = CHUNKS[((i / 2) % CHUNKS.len() as u64) as usize];
             let (name, body) = &bodies[(i / (2 * CHUNKS.len() as u64)) as usize];
-            let replay = json!({"site": "packet-short-io", "index": i, "packet": name, "bytes_per_call": chunk, "interrupts": interrupts});
+            let replay = json!({"site": "packet-short-io", "index": i0, "interrupted_calls": calls, "packet": name, "bytes_per_call": chunk, "interrupts": interrupts});
             let plain = guard(|| Packet::read_le(&mut std::io::Cursor::new(&body[..])).map(|p| format!("{p:?}")).map_err(|e| e.to_string().chars().take(60).collect::<String>()));
             let chopped = guard(|| {
                 let mut c = crate::choppy::Choppy::new(body.clone(), 0, chunk);
                 c.interrupt_every = if interrupts { 2 } else { 0 };
+                c.interrupt_calls = calls;
                 let r = Packet::read_le(&mut c);
                 let text = r.as_ref().map(|p| format!("{p:?}")).map_err(|e| e.to_string().chars().take(60).collect::<String>());
                 let back = r.ok().map(|p| {
@@ -257,12 +285,12 @@ pub fn packet_short_io_site(prop: &'static str) -> Site {
                 (text, back)
             });
             match (plain, chopped) {
-                (Err(p), _) | (_, Err(p)) => acc.violate(i, format!("{prop}|packet-short-io|panic"), format!("{name}: {p}"), replay),
+                (Err(p), _) | (_, Err(p)) => acc.violate(i0, format!("{prop}|packet-short-io|panic"), format!("{name}: {p}"), replay),
                 (Ok(a), Ok((b, back))) => {
                     if a != b {
-                        acc.violate(i, format!("{prop}|packet-short-io|read-differs-from-plain-read"), format!("{name} read {chunk} byte(s) at a time gives {}, from a plain cursor {}", format!("{b:?}").chars().take(120).collect::<String>(), format!("{a:?}").chars().take(120).collect::<String>()), replay);
+                        acc.violate(i0, format!("{prop}|packet-short-io|read-differs-from-plain-read"), format!("{name} read {chunk} byte(s) at a time gives {}, from a plain cursor {}", format!("{b:?}").chars().take(120).collect::<String>(), format!("{a:?}").chars().take(120).collect::<String>()), replay);
                     } else if let Some((false, slow, fast)) = back {
-                        acc.violate(i, format!("{prop}|packet-short-io|write-differs-from-plain-write"), format!("{name} written {chunk} byte(s) at a time gives {slow}.., into a plain cursor {fast}.."), replay);
+                        acc.violate(i0, format!("{prop}|packet-short-io|write-differs-from-plain-write"), format!("{name} written {chunk} byte(s) at a time gives {slow}.., into a plain cursor {fast}.."), replay);
                     } else { acc.class("short-io-agrees"); acc.nontrivial(); }
                 },
             }
@@ -270,11 +298,20 @@ pub fn packet_short_io_site(prop: &'static str) -> Site {
 }
 
 pub fn mso_name_text_site(prop: &'static str) -> Site {
-        let names = ["", "Vasya", "\u{412}\u{430}\u{441}\u{44f}", "Kub\u{11b}na", "\u{65e5}\u{672c}", "\u{dc}nal", "\u{3a9}\u{3bc}"];
+        let mut names: Vec<String> = ["", "Vasya", "\u{412}\u{430}\u{441}\u{44f}", "Kub\u{11b}na", "\u{65e5}\u{672c}", "\u{dc}nal", "\u{3a9}\u{3bc}"].iter().map(|s| s.to_string()).collect();
+        // names of every length that fits the 128-byte field on the wire: the name's length in UTF-8 (TextStart of the typed
+        // packet) and on the wire (TextStart in the frame) drift apart, up to 2:1 and 3:2, past 128 and up to 255
+        for letter in ['V', '\u{432}', '\u{11b}', '\u{65e5}', '\u{3a9}'] {
+            for len in 1..=120usize {
+                let name: String = std::iter::repeat(letter).take(len).collect();
+                let wire = codepages::to_lossy_bytes(&format!("{name} : hi")).len();
+                if wire <= 127 && format!("{name} : ").len() <= 255 { names.push(name); }
+            }
+        }
         let texts = ["", "hi", "f\u{fc}r", "\u{44c}\u{440}", "\u{11b}\u{161}", "\u{65e5}\u{672c}\u{8a9e}", "se\u{f1}or 8", "a\u{3a9}"];
         let n = (names.len() * texts.len() * 4 * 2) as u64;
         return Site::new("mso-name-and-text", n,
-            "IS_MSO with a name from 7 code-page classes, ' : ', a text from 8 classes, TextStart at the text x 4 user types x mode: wire TextStart = encoded length of the name part, message bytes = encoding of the whole message, decode gives the packet back, re-encode the frame",
+            "IS_MSO with a name from 7 code-page classes and names of 1..=120 letters of 5 classes (as long as the message fits its field), ' : ', a text from 8 classes, TextStart at the text x 4 user types x mode: wire TextStart = encoded length of the name part, message bytes = encoding of the whole message, decode gives the packet back, re-encode the frame",
             move |i, acc| {
                 use insim::insim::{Mso, MsoUserType};
                 acc.eval();
@@ -282,9 +319,11 @@ pub fn mso_name_text_site(prop: &'static str) -> Site {
                 let mut j = (i / 2) as usize;
                 let ut = match j % 4 { 0 => MsoUserType::System, 1 => MsoUserType::User, 2 => MsoUserType::Prefix, _ => MsoUserType::O }; j /= 4;
                 let text = texts[j % texts.len()]; j /= texts.len();
-                let name = names[j % names.len()];
+                let name = &names[j % names.len()];
                 let prefix = if name.is_empty() { String::new() } else { format!("{name} : ") };
                 let msg = format!("{prefix}{text}");
+                // (long names leave room for the short texts only)
+                if codepages::to_lossy_bytes(&msg).len() > 127 || prefix.len() > 255 { return; }
                 let p = Mso { usertype: ut.clone(), textstart: prefix.len() as u8, msg: msg.clone(), ..Default::default() };
                 let label = format!("MSO {ut:?} {msg:?} textstart {}", prefix.len());
                 let replay = json!({"site": "mso-name-and-text", "index": i, "case": label});
